@@ -204,7 +204,8 @@ func (r *Raft) info() Info {
 			}
 			var unreachable *time.Time
 			if !repl.status.noContact.IsZero() {
-				unreachable = &repl.status.noContact
+				noContact := repl.status.noContact // Info outlives this call, do not alias leader state
+				unreachable = &noContact
 			}
 			flrs[id] = Replication{
 				ID:          id,
